@@ -561,7 +561,7 @@ def run(ctx: Ctx) -> None:
     sized = {"client-batch", "claim-plain", "recover-pending", "recover-running"}
     jobs = [(kind, role, known, v) for kind in ("mem", "sqlite") for role in ROLES for v in variants if v == 0 or role in sized]
     merge_parts(ctx, pmap(shard, jobs))
-    nsh, per = (8, 40) if ctx.quick else (16, 600)
+    nsh, per = (8, 40) if ctx.quick else (16, 1800)
     merge_parts(ctx, pmap(survivors_shard, [(ctx.seed * 1000 + i, per, known) for i in range(nsh)]))
     ctx.assumptions.append("a hard crash = Crash(BaseException) raised at an effect boundary of the acting role; every later effect of that actor is refused; SQLite transactions left open roll back; background history writes of the dead process are not counted as effects")
     ctx.assumptions.append("an invocation is accepted once the client call returned it: crashes inside the client's own routing call leave nothing accepted by that call (checked only for side effects on recovery)")
